@@ -17,7 +17,7 @@ FIELDS = ("rebroadcast_hash", "total_rebroadcast_slips")
 def run(prog, tier, extra=None):
     res = Result("C13", "other")
     R1 = res.rule("C13.compare", "accept paths of Block::validate pass cv.F == self.F for the rebroadcast commitment", floor=2)
-    R2 = res.rule("C13.derive", "Block::generate writes the rebroadcast commitment only under the ATR arm", floor=2)
+    R2 = res.rule("C13.derive", "Block::generate writes the rebroadcast commitment only under the ATR arm, for every ATR transaction", floor=3)
     bv = BlockValidate(prog)
     b, ch = bv.body, bv.ch
     for f in FIELDS:
@@ -65,6 +65,24 @@ def run(prog, tier, extra=None):
             res.add(Finding(R2, "C13.derive|%s|outside-atr" % f, "Block::generate writes self.%s on a path that does not go through the ATR arm" % f, g.loc(outside[0])))
         elif writes:
             res.sample({"rule": R2, "field": f, "writes": [g.loc(x) for x in writes], "verdict": "all under the ATR arm"})
+        if f == "rebroadcast_hash" and writes and atr_edges:
+            # ... and every ATR-typed transaction contributes: from the ATR arm, the loop cannot move on to the next
+            # transaction (or leave) without passing the write
+            res.instance(R2)
+            switch_blocks = {bb for bb, _ in atr_edges}
+            goals = set(g.return_blocks()) | switch_blocks
+            skipped = None
+            for (sb, tgt) in sorted(atr_edges):
+                p = g.find_path(tgt, goals, blocked=set(writes))
+                if p:
+                    skipped = p
+                    break
+            if skipped:
+                res.add(Finding(R2, "C13.derive|rebroadcast_hash|atr-skipped",
+                                "Block::generate can pass an ATR-typed transaction without folding it into rebroadcast_hash: such a transaction is not "
+                                "covered by the rebroadcast commitment that Block::validate compares", g.loc(skipped[0])))
+            else:
+                res.sample({"rule": R2, "field": f, "verdict": "every ATR-typed transaction is folded into the hash"})
     res.explanation = (
         "Decides that the rebroadcast set is committed and compared: the validator's recomputed rebroadcast hash and rebroadcast-slip count must equal the header's on "
         "every accepting path (consensus mode), and the header values are accumulated in Block::generate only from ATR-typed transactions. Necessary for "
